@@ -125,8 +125,8 @@ def run(tier, seed):
     else:
         degrees = list(range(1, 31)) + [35, 40, 45, 50, 55, 60]
         per_degree, exh, nsample = 6, 8, 12
-    for d in degrees:
-        for _ in range(per_degree):
+    for d in sorted(set(degrees) | set(range(1, 61))):          # every degree of the property's range at least once
+        for _ in range(per_degree if d in degrees else 1):
             p, kind = gen_poly(rng, d)
             eps, suc, tol = settings(rng)
             so = str(rng.choice(["Wx", "Wz"]))
